@@ -105,6 +105,15 @@ CLAIMED = {
          "lower bounds in min / upper bounds in max. That decoding a patched slot yields the patched value is not decided.",
          "Trusted: rustc MIR; syn.",
          "DESIGN.md §3 C13"),
+ "C14": ("E-TAB", "other", "match-table SPEC over the pattern-kind dispatch (pattern kind -> requirement-node kind), argument-provenance rules for sub-pattern/component pairing, fold-direction and argument-role rules on the arm chain, operator SPEC for requirement-tree -> condition (syn)",
+         "Decides only the third clause of the statement (at run time the first matching arm executes) through its table-shaped necessary conditions: "
+         "arms are folded bottom-up with the earlier arm's condition outermost and the later arms in the else position; the chain ends in the catch-all "
+         "arm's result or a revert; or-patterns become an OR over every alternative against the same value, struct/tuple/enum patterns an AND, literals "
+         "and constants `value == literal`, variables bindings; each sub-pattern is matched against its own field / element index / downcast payload and "
+         "an enum's tag is required first; requirement leaves become `==`, AND nodes lazy &&, OR nodes lazy ||, in order. The exactness of the "
+         "exhaustiveness and reachability analysis (usefulness algorithm over pattern matrices) is NOT decided by any rule.",
+         "Trusted: syn; instantiate_if_expression / instantiate_lazy_operator build what their names say; std::ops::Eq on literals.",
+         "DESIGN.md §9.2 C14"),
  "C15": ("E-MIR", "other", "lint-configuration check + MIR enumeration of iteration over randomly seeded hash collections with order-insensitive-sink idioms (forward iterator-chain following) + who-may-call rule on ambient sources",
          "Decides: the project's deny lint on hash-order iteration stays armed for every output-affecting crate; every iteration-API call on a "
          "RandomState / hashbrown-default / DashMap collection in those crates ends in an order-insensitive sink or is an individually reviewed "
@@ -191,7 +200,6 @@ CLAIMED = {
 
 NOT_APPLICABLE = {
  "C02": "O0≡O1 is a differential over executions; no static clause beyond the per-pass/per-table clauses claimed under C03/C07.",
- "C14": "Exactness of the usefulness algorithm over pattern matrices is algorithmic correctness over run-time values; the only structural content (Pattern variant coverage) is already enforced by rustc.",
  "C18": "Idempotence f(f(x))=f(x) depends on width heuristics and comment placement; no necessary structural clause exists.",
  "C17": "Panic-freedom of the whole compile pipeline: the cone of compile_to_asm has thousands of unwrap/expect/index/unreachable sites whose unreachability rests on type-checker invariants not visible in the shape of the code; the local-guard discharge that decides C16/C21/C23 leaves them open, and a reviewed-site table of that size would be a frozen list, not a decision.",
  "C27": "Agreement of std collections / wide arithmetic with reference models quantifies over run-time histories and values of Sway library code.",
